@@ -26,9 +26,9 @@ claimed = {
  'C16': "map-iteration-order independence (2-safety by self-composition: insertion order vs reverse order, all orders for two entries) of amm.DistributeOrderAmountToOrders; the other map ranges named in the property and process-level replay are not covered",
  'C10': "second-generation Dutch auction: one bid from an arbitrary running auction (closed world; pays <= target, receives <= collateral, partial-bid bookkeeping, closing bid empties the auction), conversion lemma (posted price + one unit, monotone), price function falling, restart starts a fresh price line",
  'C11': "limit bids (deposit/cancel/withdraw with arbitrary denomination and amount in the message), the end-blocker's automatic fill of a resting limit bid, and one second-generation English bid from an arbitrary auction state",
- 'C12': "vault, locker and lend/borrow messages (24 handlers) that name a position succeed only for the owner (pre-state owner vs message signer). Not covered: liquidity orders/farming, limit bids (see C11), kill switch admin and the wasm bindings",
+ 'C12': "vault, locker, lend/borrow messages and MsgCancelOrder that name a position succeed only for the owner; MsgKillSwitch only for a configured admin; the 20 custom contract-to-chain handlers refuse, on the main and test networks, a sender that is none of the network's governance contracts before the privileged action is reached",
  'C13': "locker books per message, collector net-fee booking for every fee-generating vault message and for the second-generation Dutch close",
- 'C14': "vault and locker messages x circuit breaker / emergency shutdown / cool-off; second-generation vault liquidation refuses under shutdown or breaker; first-generation surplus / debt auction activators start nothing under breaker or shutdown. Not covered: lend, second-generation auctions, liquidity",
+ 'C14': "vault and locker messages x circuit breaker / emergency shutdown / cool-off; lend/borrow messages that open, enlarge or draw x circuit breaker; second-generation vault liquidation refuses under shutdown or breaker; first-generation surplus / debt auction activators start nothing under breaker or shutdown. Not covered: lend, second-generation auctions, liquidity",
  'C15': "utils.ApplyFuncIfNoError all-or-nothing with a symbolic fault index; the second-generation vault and borrow sweeps (never panic for any counter / offset / batch size, a failing item neither stops the sweep nor pins it); market.BeginBlocker never panics for any oracle result / asset list. Not covered: the other modules' hooks",
  'C20': "closed-world genesis round trips (real ExportGenesis + InitGenesis into a second empty store) of collector, locker, auctionsV2, liquidationsV2, x/liquidation and the external reward programs of rewards: records carried over, id counters carried over or at least not colliding with an existing id. Not covered: the other modules and the tables DESIGN.md 0.4 lists as not exported, continuation workloads",
  'C17': "one step of the price ring from any state satisfying the ring invariant, window sizes 1..6 (12 thorough): no panic, invariant, exact mean, activation, consumers fail when inactive",
